@@ -33,6 +33,9 @@ func callNamed(v ssa.Value, name string) bool {
 }
 
 func runC16(c *Ctx) {
+	nameListingsUnquoted(c, "R4")
+	verifyStateDecidedOnce(c, "R1")
+	refspecQualifiesTypedNames(c, "R1")
 	p := c.P
 	c16CachePersisted(c)
 	c16VerifiedRefs(c)
